@@ -9,7 +9,7 @@ use blsful::inner_types::{Field, Group};
 use blsful::*;
 use serde_json::json;
 
-pub const RULE: &str = "recipient keys (random) x plaintext scalars from E (1,2,3,r-1,r-2,2^254,...,random) x 2 groups: decrypt(sk) must equal m*H where H is recomputed by the reference as hash_to_curve(compress(P), ENC_DST) in the key group; the library's message_generator() must equal the reference's bytes. Sums of k in {2,3,16} ciphertexts through every Add / AddAssign impl (6) must decrypt to (sum m_i)*H, for five plaintext patterns: random, wrapping around r, cancelling to zero (the sum decrypts to the identity), 1 + (r-1) + cancelling rest, summing to one. All workloads run in the release and in the checked (debug assertions + overflow checks) build. Decryption shares built with the public public_key_share_with_generator(share, c1) for every (t,n) with n<=4 (quick) / n<=5 (thorough): every subset in ascending, reversed and shuffled order; >=t must decrypt to m*H via ElGamalDecryptionKey::from_shares, <t must not. Proofs: verify(pk), verify_and_decrypt(sk)==m*H, the reference verifier accepts the library's proof and reproduces its challenge from the merlin transcript, the library accepts a reference-built proof; perturbations that must be rejected: c1+G, c2+G, c1<->c2, each of the 3 scalars +1, challenge of another proof, ciphertext of another proof, other pk, -pk, pk+G; verify_and_decrypt with a non-matching key. History clusters (2 quick / 32 thorough per group): two proofs for one recipient and six single-component variants through verify / verify under another key / verify_and_decrypt / verify_and_decrypt with another key, plus decrypt, asked in every ordered pair (a,b) as a,b,b,a; every answer must equal the answer the question has on its own. Distinct by (suite,kind,inputs).";
+pub const RULE: &str = "recipient keys (random) x plaintext scalars from E (1,2,3,r-1,r-2,2^254,...,random) and at word / limb boundaries (255, 2^32-1, 2^32, 2^63-1, 2^63, 2^63+1, 2^64-1, 2^64, 2^128, 2^248, 2^253 in the quick tier; 2^k-1, 2^k, 2^k+1 for 17 values of k in the thorough tier) x 2 groups: decrypt(sk) must equal m*H where H is recomputed by the reference as hash_to_curve(compress(P), ENC_DST) in the key group; the library's message_generator() must equal the reference's bytes. Sums of k in {2,3,16} ciphertexts through every Add / AddAssign impl (6) must decrypt to (sum m_i)*H, for five plaintext patterns: random, wrapping around r, cancelling to zero (the sum decrypts to the identity), 1 + (r-1) + cancelling rest, summing to one. All workloads run in the release and in the checked (debug assertions + overflow checks) build. Decryption shares built with the public public_key_share_with_generator(share, c1) for every (t,n) with n<=4 (quick) / n<=5 (thorough): every subset in ascending, reversed and shuffled order; >=t must decrypt to m*H via ElGamalDecryptionKey::from_shares, <t must not. Proofs: verify(pk), verify_and_decrypt(sk)==m*H, the reference verifier accepts the library's proof and reproduces its challenge from the merlin transcript, the library accepts a reference-built proof; perturbations that must be rejected: c1+G, c2+G, c1<->c2, each of the 3 scalars +1, challenge of another proof, ciphertext of another proof, other pk, -pk, pk+G; verify_and_decrypt with a non-matching key. History clusters (2 quick / 32 thorough per group): two proofs for one recipient and six single-component variants through verify / verify under another key / verify_and_decrypt / verify_and_decrypt with another key, plus decrypt, asked in every ordered pair (a,b) as a,b,b,a; every answer must equal the answer the question has on its own. Distinct by (suite,kind,inputs).";
 
 pub fn run(ctx: &mut Ctx) {
     for_both!(run_suite, ctx);
@@ -32,14 +32,25 @@ fn run_suite<C: Suite>(ctx: &mut Ctx) {
     }
     let reps = ctx.tier.pick(1, 24);
     let mut erng = ctx.rng_l(base, "edges");
-    let edges = gen::edge_scalars(&mut erng);
+    let mut edges: Vec<(String, RS)> = gen::edge_scalars(&mut erng).into_iter().map(|(a, b)| (a.to_string(), b)).collect();
+    // plaintexts at word / limb / byte-pattern boundaries (quick: a subset)
+    let mags = gen::magnitude_scalars();
+    if ctx.tier == crate::Tier::Quick {
+        for want in ["255", "2^32-1", "2^32", "2^63-1", "2^63", "2^63+1", "u64::MAX", "2^64", "0xdeadbeefcafef00d", "2^128", "2^248", "2^253"] {
+            if let Some(m) = mags.iter().find(|(n, _)| n == want) {
+                edges.push(m.clone());
+            }
+        }
+    } else {
+        edges.extend(mags);
+    }
     for rep in 0..reps {
         for (ename, m) in &edges {
             g += 1;
             if !ctx.mine(g) {
                 continue;
             }
-            one::<C>(ctx, g, ename, m, rep);
+            one::<C>(ctx, g, ename.as_str(), m, rep);
         }
     }
     // sums
@@ -106,6 +117,15 @@ fn one<C: Suite>(ctx: &mut Ctx, g: u64, ename: &str, m: &RS, _rep: usize) {
                 // another key must not decrypt to m*H
                 let other = sk_from_rs::<C>(&gen::random_scalar(&mut rng));
                 ctx.expect(enc_pt(&ct.decrypt(&other)) != want, &format!("C14/wrong-key-decrypts/{n}"), || d("another secret key decrypts to m*H"));
+                // ... nor the keys related to the right one
+                {
+                    let inv: Option<RS> = Option::from(k.invert());
+                    for (rn, rk) in [("-k", -k), ("k+1", k + RS::ONE), ("2k", k + k), ("1/k", inv.unwrap_or(RS::ONE))] {
+                        if rk != k && !bool::from(rk.is_zero()) {
+                            ctx.expect(enc_pt(&ct.decrypt(&sk_from_rs::<C>(&rk))) != want, &format!("C14/wrong-key-decrypts/{n}"), || { let mut x = d("a key related to the right one decrypts to m*H"); x["related"] = json!(rn); x });
+                        }
+                    }
+                }
                 ctx.hit(&format!("{n}/decrypt"), &[&Vec::from(&ct)]);
                 ctx.sample(&format!("{n}/decrypt"), || { let mut x = d("decrypt == m*H"); x["ct"] = json!(hex::encode(Vec::from(&ct))); x });
             }
